@@ -19,16 +19,16 @@ P = {
  "C04": ("exploration", "output re-parse monitor (typst-syntax error flag) over all widths incl. 0/1/2", "6.4",
          "Held on every execution explored: the output of a well-formed input parses without errors. Width sweep always contains 0, 1, 2 where everything that can break does break; line and block comments are injected before every closer.",
          "typst-syntax 0.13.1's `erroneous()` is the definition of syntax error."),
- "C05": ("exploration", "totality monitor: catch_unwind + panic location hook + CPU budget + refusal rule, isolated worker processes for depth ladders; ASan replay and Miri in the thorough tier", "6.5",
+ "C05": ("exploration", "totality monitor: catch_unwind + panic location hook + CPU budget + refusal rule; the workload runs in a supervised child process whose SIGABRT handler leaves a breadcrumb naming the input being formatted (aborts are confirmed in an isolated worker); isolated worker processes for depth ladders; ASan replay and sharded Miri in the thorough tier", "6.5",
          "No panic, abort, signal or budget overrun on any observed call; refusal iff the reference parser reports errors; the string convenience entry point returns erroneous input unchanged. Depth ladders run in fresh processes so that a stack overflow is attributed, not fatal to the monitor.",
          "CPU budget 10 s/call; release profile; parser-limited depth; sanitizers only see paths the workload drives."),
  "C06": ("exploration", "interleaved word/comment stream monitor over systematic comment injection", "6.6",
          "For every explored input with comments the in-order stream of comments and words of the output tree equals the input's: nothing lost, duplicated, reordered, reworded, or moved across a word. Every token gap of every snippet receives eight comment shapes with unique ids, so histories are unambiguous.",
          "Stream abstraction in harness/src/streams.rs; `not in` counts as one operator symbol; EOL blanks inside literals are C10's matter."),
- "C07": ("exploration", "directive/target pairing monitor over directive injection before every node", "6.7",
-         "For every in-scope directive the protected node's source text reappears character for character (modulo blanks at line ends) and the directive is kept; non-triviality is measured by a twin run with the directive disabled.",
+ "C07": ("exploration", "directive/target pairing monitor over directive injection before every node (six spellings, three payload shapes, eight whitespace separations incl. blank lines)", "6.7",
+         "For every in-scope directive the protected node's source text reappears character for character (modulo blanks at line ends) after the directive in the output, and the directive is kept; non-triviality is measured by a twin run with the directive disabled.",
          "Scope as in DESIGN.md section 8 (expression, code body, math body)."),
- "C08": ("exploration", "prose line-structure monitor for every paired Markup node + width-independence of folds inside prose lines", "6.8",
+ "C08": ("exploration", "prose line-structure monitor for every paired Markup node + width-independence of folds inside prose lines + strong/emph elements never become multi-line", "6.8",
          "Every Markup node keeps its list of lines (exact prose text, embedded code opaque) and separators (line break / paragraph break with its number of line feeds); a prose line that stays one line at unlimited width is never folded by a narrower width.",
          "Line abstraction in harness/src/streams.rs; blank runs between words compare as one blank (weaker reading)."),
  "C09": ("exploration", "math gap-class monitor (none/space/newline) for every paired Math/MathDelimited node", "6.9",
